@@ -646,6 +646,10 @@ fn ensure_virtual_pages_mapped_to_physical_pages(ptr: NonNull<SlotMeta>, layout:
     }
 }
 
+// Verification hook (H1): module-private accessors for harnesses, kept outside the repository.
+#[cfg(any(kani, folo_verif))]
+include!(concat!(env!("FOLO_VERIF_DIR"), "/kani/infinity_pool/slab_hooks.rs"));
+
 #[cfg(test)]
 #[cfg_attr(coverage_nightly, coverage(off))]
 mod tests {
